@@ -132,9 +132,9 @@ theorem known_map (H : ChildAgree cs ci) {kk : Kind} {e : Elem} {n : Nat} {k v :
     cases e with
     | scalar k => rfl
     | message mi => exact Or.inl ⟨rfl, rfl⟩
-  obtain ⟨vi', hi, hrel'⟩ := entry_agree S cs ci H kk e n (r1.take n) (r1.drop n) _ _ _ _ _
-    (by rw [List.take_append_drop]; omega) hrel hc
-  rw [List.take_append_drop, List.length_take, Nat.min_eq_left (by omega)] at hi
+  obtain ⟨vi', hi, hrel'⟩ := entry_agree S cs ci H kk e n (r1.take n) [] _ _ _ _ _
+    (by rw [List.append_nil, List.length_take]; omega) hrel hc
+  rw [List.append_nil, List.length_take, Nat.min_eq_left (by omega)] at hi
   have hfin : (match e with
       | .message mi => (if vi'.isNone then emptyMsg S mi else vi')
       | .scalar _ => vi') = v := by
